@@ -3,6 +3,7 @@ package main
 import (
 	"fmt"
 	"go/ast"
+	"go/constant"
 	"go/token"
 	"go/types"
 	"sort"
@@ -12,7 +13,7 @@ import (
 // Second batch of rules motivated by independently seeded changes (DESIGN.md section 8).
 
 func init() {
-	registerRule("canon-normalizer", 2, "every value normalizeBase returns has had its fragment cleared and its path cleaned", ruleCanonNormalizer)
+	registerRule("canon-normalizer", 1, "every value normalizeBase returns has had its fragment cleared and its path cleaned", ruleCanonNormalizer)
 	registerRule("encode-readonly", 20, "encoders and lookups never write through their receiver", ruleEncodeReadonly)
 	registerRule("loader-shares-state", 2, "a loader created while expanding shares the current loader's cache and resolver context", ruleLoaderSharesState)
 	registerRule("codec-must-pass", 8, "gob codecs reach a successful return only through the gob encoder/decoder (no shortcut on special values)", ruleCodecMustPass)
@@ -27,6 +28,40 @@ func ruleCanonNormalizer(c *Ctx) {
 		return
 	}
 	c.saw(c.funcName(fd))
+	// a location that is made a local file has no query: on the effect normal form, every path that stores the
+	// file scheme also stores the empty query (C11: "for files, the query is irrelevant")
+	if paths, unsup := c.simulate(fd, nil); unsup == "" && len(paths) > 0 {
+		ok, n := true, 0
+		for _, p := range paths {
+			setsFile, clearsQuery := false, false
+			for _, e := range p.effs {
+				if e.kind != "write" || len(e.dst.steps) == 0 {
+					continue
+				}
+				k, isConst := e.val.(svConst)
+				switch e.dst.steps[len(e.dst.steps)-1] {
+				case "Scheme":
+					if isConst && k.v.Kind() == constant.String && constant.StringVal(k.v) == "file" {
+						setsFile = true
+					}
+				case "RawQuery":
+					if isConst && k.v.Kind() == constant.String && constant.StringVal(k.v) == "" {
+						clearsQuery = true
+					}
+				}
+			}
+			if setsFile {
+				n++
+				if !clearsQuery {
+					ok = false
+				}
+			}
+		}
+		if n > 0 {
+			c.ob(rule, "normalizeBase:query-cleared-for-files", fd.Pos(), ok,
+				"on some path a location is turned into a local file (scheme set to file) without its query being cleared: file.json?x=1 and file.json are then two documents, and sibling references inherit the query")
+		}
+	}
 	const fragCleared, cleaned factBits = 1, 2
 	// summaries of package helpers that take the URL: which of the two facts they establish on every path
 	summary := func(g *types.Func) factBits {
